@@ -14,6 +14,7 @@ package raft
 
 import (
 	"bytes"
+	"crypto/sha256"
 	"encoding/json"
 	"fmt"
 	"io"
@@ -22,8 +23,10 @@ import (
 	"sort"
 	"strings"
 	"testing"
+	"time"
 
 	log "github.com/hashicorp/go-hclog"
+	"github.com/hashicorp/go-raftchunking"
 	"github.com/hashicorp/raft"
 	"github.com/openbao/openbao/sdk/v2/helper/verifx"
 	bolt "go.etcd.io/bbolt"
@@ -71,17 +74,41 @@ type c09Entry struct {
 	// model
 	ModelCommit bool // verdict of the reference replay
 	Stale       bool // some verified key/listing was written between start and position
-	data        []byte
+	// chunking: an entry whose command exceeds raftchunking.ChunkSize occupies NumChunks log slots; Pos is the
+	// slot of its final chunk (where it is applied), FirstPos the slot of its first chunk. The other slots hold
+	// entries of Kind "chunk" that point to it.
+	NumChunks int
+	FirstPos  int
+	Owner     *c09Entry
+	ChunkSeq  int
+}
+
+func c09ShowVal(v []byte) string {
+	if len(v) > 64 {
+		return fmt.Sprintf("<%d bytes %x>", len(v), sha256.Sum256(v))
+	}
+	return fmt.Sprintf("%q", v)
 }
 
 func (e *c09Entry) String() string {
+	if e.Kind == "chunk" {
+		return fmt.Sprintf("#%d@%d chunk %d/%d of #%d", e.Pos, e.Index, e.ChunkSeq+1, e.Owner.NumChunks, e.Owner.Pos)
+	}
+	s := e.describe()
+	if e.NumChunks > 1 {
+		s += fmt.Sprintf(" [final chunk %d/%d, first chunk #%d]", e.NumChunks, e.NumChunks, e.FirstPos)
+	}
+	return s
+}
+
+func (e *c09Entry) describe() string {
 	lai := "nil"
 	if e.LAI != nil {
 		lai = fmt.Sprint(*e.LAI)
 	}
 	switch e.Kind {
 	case "put":
-		return fmt.Sprintf("#%d@%d put %s=%q lai=%s", e.Pos, e.Index, e.Key, e.Value, lai)
+		return fmt.Sprintf("#%d@%d put %s=%s lai=%s", e.Pos, e.Index, e.Key, c09ShowVal(e.Value), lai)
 	case "del":
 		return fmt.Sprintf("#%d@%d del %s lai=%s", e.Pos, e.Index, e.Key, lai)
 	}
@@ -102,7 +129,7 @@ func (e *c09Entry) String() string {
 		if w.Del {
 			fmt.Fprintf(&sb, " del %s", w.Key)
 		} else {
-			fmt.Fprintf(&sb, " put %s=%q", w.Key, w.Value)
+			fmt.Fprintf(&sb, " put %s=%s", w.Key, c09ShowVal(w.Value))
 		}
 	}
 	fmt.Fprintf(&sb, ") lai=%s model=%s stale=%v", lai, c09VerdictName(e.ModelCommit), e.Stale)
@@ -129,7 +156,7 @@ func (s c09State) clone() c09State {
 func (s c09State) dump() []string {
 	out := make([]string, 0, len(s))
 	for k, v := range s {
-		out = append(out, fmt.Sprintf("%s=%q", k, v))
+		out = append(out, k+"="+c09ShowVal(v))
 	}
 	sort.Strings(out)
 	return out
@@ -211,18 +238,47 @@ func c09Matches(v *c09Verify, s c09State) bool {
 }
 
 type c09Case struct {
-	N       int
-	Entries []*c09Entry // 1-based, Entries[0] == nil
-	States  []c09State  // States[p] = model state after p entries
-	Idx     []uint64    // Idx[p] = raft index of entry p, Idx[0] == 0
+	N       int         // number of log slots (raft log entries)
+	Entries []*c09Entry // 1-based, Entries[0] == nil; one per slot (Kind "chunk" for the non-final chunks of an entry)
+	States  []c09State  // States[p] = model state after slot p
+	Idx     []uint64    // Idx[p] = raft index of slot p, Idx[0] == 0
+	Data    [][]byte    // raft.Log.Data of slot p
+	Ext     [][]byte    // raft.Log.Extensions of slot p (chunk info; nil for an unchunked entry)
 }
 
-// writesAt returns the keys the model says entry p wrote (nothing for a conflicting transaction).
+// visible: does the log of slot p reach FSM.ApplyBatch (everything but a non-final chunk)?
+func (c *c09Case) visible(p int) bool { return p >= 1 && c.Entries[p].Kind != "chunk" }
+
+// lastVisible returns the last slot <= p whose log reaches the FSM (0 if none): the FSM's latest index after slot p
+// is the index of that slot.
+func (c *c09Case) lastVisible(p int) int {
+	for ; p >= 1; p-- {
+		if c.visible(p) {
+			return p
+		}
+	}
+	return 0
+}
+
+// inflight counts the chunks stored after slot p for entries whose final chunk comes later.
+func (c *c09Case) inflight(p int) int {
+	n := 0
+	for q := 1; q <= p; q++ {
+		if e := c.Entries[q]; e.Kind == "chunk" && e.Owner.Pos > p {
+			n++
+		}
+	}
+	return n
+}
+
+// writesAt returns the keys the model says slot p wrote (nothing for a conflicting transaction or a chunk).
 func (c *c09Case) writesAt(p int) []string {
 	e := c.Entries[p]
 	switch e.Kind {
 	case "put", "del":
 		return []string{e.Key}
+	case "chunk":
+		return nil
 	}
 	if !e.ModelCommit {
 		return nil
@@ -249,6 +305,8 @@ type c09Spec struct {
 	ForgeVal     int
 	LaiDie       int
 	LaiSlack     int
+	Big          int // 0: small command; 1, 2: one value so large that the command needs 2 or 3 chunks
+	Interleave   int // chunked entry: this many following (small) entries are logged between its first and second chunk
 }
 
 type c09WSpec struct {
@@ -279,6 +337,13 @@ func c09SpecGen(txnPct int) *rapid.Generator[c09Spec] {
 		s.LaiDie = rapid.IntRange(0, 19).Draw(t, "laiDie")
 		if s.LaiDie >= 17 && s.LaiDie < 19 {
 			s.LaiSlack = rapid.IntRange(0, 3).Draw(t, "laiSlack")
+		}
+		if rapid.IntRange(0, 79).Draw(t, "bigDie") == 79 {
+			s.Big = 1
+			if rapid.IntRange(0, 9).Draw(t, "threeChunks") == 9 {
+				s.Big = 2
+			}
+			s.Interleave = rapid.IntRange(0, 2).Draw(t, "interleave")
 		}
 		if s.Kind != 2 {
 			s.Key = rapid.IntRange(0, len(c09Keys)-1).Draw(t, "key")
@@ -317,6 +382,22 @@ func c09Value(j int) []byte {
 	return c09Values[j%3]
 }
 
+// c09BigValue builds a value that pushes the marshalled command over chunks*ChunkSize... (a function of the
+// arguments only).
+func c09BigValue(chunks, salt int) []byte {
+	v := make([]byte, (chunks-1)*raftchunking.ChunkSize+1+(salt*977)%3000)
+	for i := range v {
+		v[i] = byte(i*31 + salt)
+	}
+	return v
+}
+
+type c09NoFuture struct{}
+
+func (c09NoFuture) Error() error  { return nil }
+func (c09NoFuture) Response() any { return nil }
+func (c09NoFuture) Index() uint64 { return 0 }
+
 func c09GenLog(rt *rapid.T) *c09Case {
 	txnPct := rapid.SampledFrom([]int{25, 40, 60}).Draw(rt, "txnPct")
 	// rapid's slices average min+5 elements; concatenating a generated number of chunks gives long logs that
@@ -333,13 +414,77 @@ func c09GenLog(rt *rapid.T) *c09Case {
 	if len(specs) > 40 {
 		specs = specs[:40]
 	}
-	n := len(specs)
-	c := &c09Case{N: n, Entries: make([]*c09Entry, n+1), States: make([]c09State, n+1), Idx: make([]uint64, n+1)}
+
+	// ---- layout: which log slot carries which (chunk of which) entry. A big entry occupies 2 or 3 slots; up to
+	// Interleave following small entries are logged between its first and second chunk (concurrent appliers).
+	type slot struct{ spec, seq, of int }
+	canBeBig := func(sp c09Spec) bool {
+		if sp.Big == 0 {
+			return false
+		}
+		if sp.Kind == 0 {
+			return true
+		}
+		if sp.Kind == 2 {
+			for _, w := range sp.Writes {
+				if !w.Del {
+					return true
+				}
+			}
+		}
+		return false
+	}
+	var slots []slot
+	bigs := 0
+	for i := 0; i < len(specs); i++ {
+		if !canBeBig(specs[i]) || bigs >= 2 {
+			specs[i].Big = 0
+			slots = append(slots, slot{i, 0, 1})
+			continue
+		}
+		bigs++
+		of := specs[i].Big + 1
+		slots = append(slots, slot{i, 0, of})
+		j := i + 1
+		for ; j < len(specs) && j <= i+specs[i].Interleave && !canBeBig(specs[j]); j++ {
+			specs[j].Big = 0
+			slots = append(slots, slot{j, 0, 1})
+		}
+		for q := 1; q < of; q++ {
+			slots = append(slots, slot{i, q, of})
+		}
+		i = j - 1
+	}
+
+	n := len(slots)
+	c := &c09Case{N: n, Entries: make([]*c09Entry, n+1), States: make([]c09State, n+1), Idx: make([]uint64, n+1),
+		Data: make([][]byte, n+1), Ext: make([][]byte, n+1)}
 	c.States[0] = c09State{}
+	firstPos := map[int]int{}      // spec -> slot of its first chunk
+	chunkSlots := map[int][]int{}  // spec -> slots of its non-final chunks
+	specOf := make([]int, n+1)     // slot -> spec (final / only slot of an entry)
 	for p := 1; p <= n; p++ {
-		sp := specs[p-1]
-		c.Idx[p] = c.Idx[p-1] + 1 + uint64(sp.Gap) // gaps: no-op / barrier entries never reach the FSM
-		e := &c09Entry{Pos: p, Index: c.Idx[p]}
+		sl := slots[p-1]
+		sp := specs[sl.spec]
+		gap := 0
+		if sl.seq == 0 {
+			gap = sp.Gap // gaps: no-op / barrier entries never reach the FSM
+		}
+		c.Idx[p] = c.Idx[p-1] + 1 + uint64(gap)
+		if sl.seq == 0 {
+			firstPos[sl.spec] = p
+		}
+		if sl.seq < sl.of-1 {
+			c.Entries[p] = &c09Entry{Pos: p, Index: c.Idx[p], Kind: "chunk", ChunkSeq: sl.seq}
+			chunkSlots[sl.spec] = append(chunkSlots[sl.spec], p)
+			c.States[p] = c.States[p-1]
+			continue
+		}
+		specOf[p] = sl.spec
+		e := &c09Entry{Pos: p, Index: c.Idx[p], NumChunks: sl.of, FirstPos: firstPos[sl.spec]}
+		for _, q := range chunkSlots[sl.spec] {
+			c.Entries[q].Owner = e
+		}
 		cur := c.States[p-1]
 		next := cur.clone()
 		switch sp.Kind {
@@ -347,6 +492,9 @@ func c09GenLog(rt *rapid.T) *c09Case {
 			e.Kind = "put"
 			e.Key = c09Keys[sp.Key]
 			e.Value = c09Value(sp.Val)
+			if sl.of > 1 {
+				e.Value = c09BigValue(sl.of, sp.Val)
+			}
 			next[e.Key] = e.Value
 		case 1:
 			e.Kind = "del"
@@ -354,9 +502,19 @@ func c09GenLog(rt *rapid.T) *c09Case {
 			delete(next, e.Key)
 		default:
 			e.Kind = "txn"
-			e.StartPos = p - 1 - sp.StartBack
-			if e.StartPos < 0 {
-				e.StartPos = 0
+			// the start index is an index the leader's FSM had before the entry was proposed (before its first
+			// chunk): that of a slot which reaches the FSM, StartBack such slots back (or 0)
+			e.StartPos = 0
+			back := sp.StartBack
+			for q := e.FirstPos - 1; q >= 1; q-- {
+				if !c.visible(q) {
+					continue
+				}
+				if back == 0 {
+					e.StartPos = q
+					break
+				}
+				back--
 			}
 			e.StartIndex = c.Idx[e.StartPos]
 			at := c.States[e.StartPos]
@@ -375,10 +533,15 @@ func c09GenLog(rt *rapid.T) *c09Case {
 			for _, k := range sp.Reads {
 				readKeys[c09Keys[k]] = true
 			}
+			bigDone := sl.of == 1
 			for _, ws := range sp.Writes {
 				w := c09Write{Key: c09Keys[ws.Key], Del: ws.Del}
 				if !w.Del {
 					w.Value = c09Value(ws.Val)
+					if !bigDone {
+						w.Value = c09BigValue(sl.of, ws.Val)
+						bigDone = true
+					}
 				}
 				e.Writes = append(e.Writes, w)
 				if sp.VerifyWrites {
@@ -447,14 +610,18 @@ func c09GenLog(rt *rapid.T) *c09Case {
 		c.Entries[p] = e
 		c.States[p] = next
 	}
-	// LowestActiveIndex as a correct leader ships it: the lowest start index among the transactions open
-	// when the entry is proposed, capped by raft's applied index (everything before the entry).
+	// LowestActiveIndex as a correct leader ships it when it proposes the entry (before its first chunk): the
+	// lowest start index among the transactions open then (a transaction stays open until its final chunk is
+	// applied), capped by the index its FSM has applied.
 	for p := 1; p <= n; p++ {
 		e := c.Entries[p]
-		sp := specs[p-1]
-		l := c.Idx[p] - 1
-		for q := p + 1; q <= n && q <= p+6; q++ {
-			if t := c.Entries[q]; t.Kind == "txn" && t.StartPos < p && t.StartIndex < l {
+		if e.Kind == "chunk" {
+			continue
+		}
+		sp := specs[specOf[p]]
+		l := c.Idx[c.lastVisible(e.FirstPos-1)]
+		for q := 1; q <= n; q++ {
+			if t := c.Entries[q]; t != e && t.Kind == "txn" && t.StartPos < e.FirstPos && e.FirstPos < t.Pos && t.StartIndex < l {
 				l = t.StartIndex
 			}
 		}
@@ -471,7 +638,27 @@ func c09GenLog(rt *rapid.T) *c09Case {
 		default:
 			e.LAI = new(l)
 		}
-		e.data = c09Marshal(rt, e)
+		cmd := c09Marshal(rt, e)
+		if e.NumChunks == 1 {
+			if len(cmd) > raftchunking.ChunkSize {
+				rt.Fatalf("harness: small command of %d bytes", len(cmd))
+			}
+			c.Data[p] = cmd
+			continue
+		}
+		// the chunk logs exactly as the leader produces them (RaftBackend.applyLog -> raftchunking.ChunkingApply)
+		var parts []raft.Log
+		raftchunking.ChunkingApply(cmd, nil, 0, func(l raft.Log, _ time.Duration) raft.ApplyFuture {
+			parts = append(parts, l)
+			return c09NoFuture{}
+		})
+		if len(parts) != e.NumChunks {
+			rt.Fatalf("harness: command of %d bytes gave %d chunks, layout expects %d", len(cmd), len(parts), e.NumChunks)
+		}
+		own := append(append([]int(nil), chunkSlots[specOf[p]]...), p)
+		for i, q := range own {
+			c.Data[q], c.Ext[q] = parts[i].Data, parts[i].Extensions
+		}
 	}
 	return c
 }
@@ -538,7 +725,7 @@ func c09Batches(rt *rapid.T, label string, lo, hi int) [][2]int {
 type c09Divergence struct {
 	Replica string
 	Pos     int
-	Kind    string // verdict | state | index | panic | response | reopen-index | snapshot
+	Kind    string // verdict | state | index | panic | response | reopen-index | snapshot | chunk-lost | chunk-keys
 	Got     string
 	Want    string
 }
@@ -548,6 +735,7 @@ type c09Replica struct {
 	dir        string
 	fsm        *FSM
 	restartPos int // position after which the in-memory state of the FSM was lost (reopen / snapshot install); -1 = never
+	resume     int // first slot fed after the restart (restartPos+1, or earlier when the trailing chunk logs are replayed)
 	verdicts   map[int]bool
 	applied    int // highest position applied (or covered by the installed snapshot)
 	div        *c09Divergence
@@ -561,28 +749,34 @@ func c09NewFSM(rt *rapid.T, dir string) *FSM {
 	return f
 }
 
-func c09Dump(f *FSM) ([]string, error) {
-	var out []string
-	err := f.db.View(func(tx *bolt.Tx) error {
+// c09Dump returns the user-visible content of the data bucket and the number of stored chunks (keys below
+// "raftchunking/").
+func c09Dump(f *FSM) (user []string, chunks int, err error) {
+	err = f.db.View(func(tx *bolt.Tx) error {
 		return tx.Bucket(dataBucketName).ForEach(func(k, v []byte) error {
-			out = append(out, fmt.Sprintf("%s=%q", k, v))
+			if bytes.HasPrefix(k, []byte(chunkingPrefix)) {
+				chunks++
+				return nil
+			}
+			user = append(user, string(k)+"="+c09ShowVal(v))
 			return nil
 		})
 	})
-	return out, err
+	return user, chunks, err
 }
 
-// apply feeds positions lo..hi as one batch and compares verdicts, data and index with the model.
+// apply feeds slots lo..hi as one batch, through the chunking wrapper hashicorp/raft is given, and compares
+// responses, verdicts, data and index with the model.
 func (r *c09Replica) apply(rt *rapid.T, c *c09Case, lo, hi int) {
 	if r.div != nil {
 		return
 	}
 	logs := make([]*raft.Log, 0, hi-lo+1)
 	for p := lo; p <= hi; p++ {
-		logs = append(logs, &raft.Log{Index: c.Idx[p], Term: 1, Type: raft.LogCommand, Data: c.Entries[p].data})
+		logs = append(logs, &raft.Log{Index: c.Idx[p], Term: 1, Type: raft.LogCommand, Data: c.Data[p], Extensions: c.Ext[p]})
 	}
 	var resp []any
-	if pv := verifx.Try(func() { resp = r.fsm.ApplyBatch(logs) }); pv != nil {
+	if pv := verifx.Try(func() { resp = r.fsm.chunker.ApplyBatch(logs) }); pv != nil {
 		r.div = &c09Divergence{Replica: r.name, Pos: hi, Kind: "panic", Got: fmt.Sprint(pv), Want: "no panic"}
 		return
 	}
@@ -590,10 +784,31 @@ func (r *c09Replica) apply(rt *rapid.T, c *c09Case, lo, hi int) {
 		r.div = &c09Divergence{Replica: r.name, Pos: hi, Kind: "response", Got: fmt.Sprintf("%d responses", len(resp)), Want: fmt.Sprint(len(logs))}
 		return
 	}
-	r.applied = hi
+	if hi > r.applied {
+		r.applied = hi
+	}
 	for i, raw := range resp {
 		p := lo + i
 		e := c.Entries[p]
+		if e.Kind == "chunk" {
+			if raw != nil {
+				r.div = &c09Divergence{Replica: r.name, Pos: p, Kind: "response", Got: fmt.Sprintf("%#v", raw), Want: "nil for a non-final chunk"}
+				return
+			}
+			continue
+		}
+		if e.NumChunks > 1 {
+			if raw == nil {
+				r.div = &c09Divergence{Replica: r.name, Pos: p, Kind: "chunk-lost", Got: "nil response to the final chunk (entry not applied)", Want: "ChunkingSuccess"}
+				return
+			}
+			cs, ok := raw.(raftchunking.ChunkingSuccess)
+			if !ok {
+				r.div = &c09Divergence{Replica: r.name, Pos: p, Kind: "response", Got: fmt.Sprintf("%#v", raw), Want: "raftchunking.ChunkingSuccess for a final chunk"}
+				return
+			}
+			raw = cs.Response
+		}
 		ar, ok := raw.(*FSMApplyResponse)
 		if !ok || !ar.Success {
 			r.div = &c09Divergence{Replica: r.name, Pos: p, Kind: "response", Got: fmt.Sprintf("%#v", raw), Want: "*FSMApplyResponse{Success:true}"}
@@ -618,7 +833,7 @@ func (r *c09Replica) apply(rt *rapid.T, c *c09Case, lo, hi int) {
 }
 
 func (r *c09Replica) checkState(c *c09Case, p int) {
-	got, err := c09Dump(r.fsm)
+	got, chunks, err := c09Dump(r.fsm)
 	if err != nil {
 		r.div = &c09Divergence{Replica: r.name, Pos: p, Kind: "state", Got: "dump error " + err.Error()}
 		return
@@ -628,8 +843,13 @@ func (r *c09Replica) checkState(c *c09Case, p int) {
 		r.div = &c09Divergence{Replica: r.name, Pos: p, Kind: "state", Got: fmt.Sprint(got), Want: fmt.Sprint(want)}
 		return
 	}
-	if li, _ := r.fsm.LatestState(); li.Index != c.Idx[p] {
-		r.div = &c09Divergence{Replica: r.name, Pos: p, Kind: "index", Got: fmt.Sprint(li.Index), Want: fmt.Sprint(c.Idx[p])}
+	if w := c.inflight(p); chunks != w {
+		r.div = &c09Divergence{Replica: r.name, Pos: p, Kind: "chunk-keys", Got: fmt.Sprintf("%d keys under %s", chunks, chunkingPrefix), Want: fmt.Sprintf("%d (chunks of entries still incomplete)", w)}
+		return
+	}
+	// the FSM's latest index is that of the last log that reached it (a non-final chunk does not)
+	if li, _ := r.fsm.LatestState(); li.Index != c.Idx[c.lastVisible(p)] {
+		r.div = &c09Divergence{Replica: r.name, Pos: p, Kind: "index", Got: fmt.Sprint(li.Index), Want: fmt.Sprint(c.Idx[c.lastVisible(p)])}
 	}
 }
 
